@@ -358,8 +358,10 @@ def arc_middle_point(tier, seed):
                             # closed by its chord: the circle segment
                             p = trimesh.path.Path2D(entities=[Arc([0, 1, 2]), Line([2, 0])], vertices=pts.copy(), process=False)
                             want = 0.5 * r * r * (th - math.sin(th))
+                            # (the centre of three nearly collinear control points is ill conditioned: the
+                            # float error grows like (r / distance between control points)^2, last term)
                             ref = ref_area.setdefault((cx, cy, deg, direction), p.area)
-                            if abs(p.area - want) > 2e-2 * max(want, r * r * 1e-3) or abs(p.area - ref) > 1e-9 * max(ref, r * r * 1e-3) + 1e-13 * (cx * cx + cy * cy):
+                            if abs(p.area - want) > 2e-2 * max(want, r * r * 1e-3) or abs(p.area - ref) > 1e-9 * max(ref, r * r * 1e-3) + 1e-13 * (cx * cx + cy * cy) + r * r * 1e-14 / (min(f, 1.0 - f) * th) ** 2:
                                 fail("path:segment-area-depends-on-the-middle-point", "%s: area %.9g, same arc with another middle point %.9g, exact segment %.6g" % (tag, p.area, ref, want))
                         except Exception as ex:  # noqa: BLE001
                             fail("arc:raised %s" % type(ex).__name__, "%s: %s" % (tag, ex))
